@@ -212,7 +212,7 @@ func genAssertion(t *rapid.T) AssertionSpec {
 			if rapid.IntRange(0, 2).Draw(t, "hasfriendly") > 0 {
 				st[j].Friendly = str.Draw(t, "afriendly")
 			}
-			st[j].Values = rapid.SliceOfN(rapid.OneOf(xgen.Text(), rapid.SampledFrom([]string{"admin", "staff", "Admin", "admin ", "user"})), 0, 3).Draw(t, "avalues")
+			st[j].Values = rapid.SliceOfN(rapid.OneOf(xgen.Text(), rapid.SampledFrom([]string{"admin", "staff", "Admin", "admin ", "user", "mallory, admin", "staff;admin", "CN=mallory,OU=admin,DC=example", "admin staff", "user|admin", "admin,"})), 0, 3).Draw(t, "avalues")
 			if st[j].Values == nil {
 				st[j].Values = []string{}
 			}
@@ -326,7 +326,14 @@ func gen(t *rapid.T) Case {
 			c.GateName = rapid.SampledFrom(names).Draw(t, "gname")
 			other := rapid.SampledFrom(names).Draw(t, "gother")
 			v := rapid.SampledFrom(ref[other]).Draw(t, "gvalue")
-			c.GateValue = rapid.SampledFrom([]string{v, v + " ", strings.ToUpper(v), v + "x", "x" + v, ""}).Draw(t, "gnear")
+			cands := []string{v, v + " ", strings.ToUpper(v), v + "x", "x" + v, ""}
+			// a piece of a carried value that is a list in disguise ("mallory, admin", a DN, ...)
+			for _, piece := range strings.FieldsFunc(v, func(r rune) bool { return strings.ContainsRune(",;|= ", r) }) {
+				if piece != v {
+					cands = append(cands, piece, piece, strings.TrimSpace(piece))
+				}
+			}
+			c.GateValue = rapid.SampledFrom(cands).Draw(t, "gnear")
 		case k == 4 && len(names) > 0: // near-miss of the NAME
 			n := rapid.SampledFrom(names).Draw(t, "gname")
 			c.GateValue = rapid.SampledFrom(ref[n]).Draw(t, "gvalue")
@@ -1203,7 +1210,7 @@ func drive(d deployment, c Case, cookieName, tok string) (ob observed) {
 // token at every clock class x lifetime; one fixed assertion.
 func enumMutants(_ string, emit func(Case)) {
 	as := AssertionSpec{Subject: "nameid", NameID: "alice@example.com",
-		Statements:     [][]Attr{{{Name: "urn:oid:0.9.2342.19200300.100.1.1", Friendly: "uid", Values: []string{"alice"}}, {Name: "groups", Values: []string{"staff", "admin"}}}, {{Name: "groups", Values: []string{"ops"}}}},
+		Statements:     [][]Attr{{{Name: "urn:oid:0.9.2342.19200300.100.1.1", Friendly: "uid", Values: []string{"alice"}}, {Name: "groups", Values: []string{"staff", "admin"}}, {Name: "memberOf", Values: []string{"mallory, root", "CN=x,OU=wheel,DC=example", "a;sudo", "ops users"}}}, {{Name: "groups", Values: []string{"ops"}}}},
 		SessionIndexes: []string{"idx-1"}}
 	off := func(cls string, maxAge int64) int64 {
 		switch cls {
@@ -1241,6 +1248,12 @@ func enumMutants(_ string, emit func(Case)) {
 						c.GateValue = "root"
 						emit(c)
 						c.GateValue = "adm" // proper prefix of a carried value
+						emit(c)
+						for _, piece := range []string{"root", "mallory", "wheel", "OU=wheel", "sudo", "a", "users", "ops"} {
+							c.GateName, c.GateValue = "memberOf", piece // a delimited piece of a carried value is not the value
+							emit(c)
+						}
+						c.GateName, c.GateValue = "memberOf", "mallory, root" // ... the whole value is
 						emit(c)
 					}
 					c := base
